@@ -84,7 +84,11 @@ def crafted(ctx, scases, smeta):
                        for i in range(420))
     big = ("BigInner: !record\n  fields:\n    u: uint16\n\nBig: !record\n  fields:\n%s\n\nPbig: !protocol\n  sequence:\n    b: Big\n"
            "    c: !stream\n      items: Big\n" % fields)
-    for name, ns, files, libspec in (("same-simple-names", "App", {"m.yml": main}, lib), ("long-schema", "Bg", {"m.yml": big}, None)):
+    gen2 = ("Pair<T>: !record\n  fields:\n    a: T\n    b: T\n\nHeader: !record\n  fields:\n    h: int32\n\nSample: !record\n  fields:\n    v: float32\n\n"
+            "Deep: !record\n  fields:\n    d: string\n\nBox<T>: T?\n\n"
+            "Pg: !protocol\n  sequence:\n    a: Pair<Header>\n    b: Pair<Sample>\n    c: Pair<Pair<Deep>>\n    d: Box<int32>\n    e: !stream\n      items: Box<Deep>\n")
+    for name, ns, files, libspec in (("same-simple-names", "App", {"m.yml": main}, lib), ("long-schema", "Bg", {"m.yml": big}, None),
+                                     ("generic-instantiated-with-several-arguments", "Gn", {"m.yml": gen2}, None)):
         g = generate(ctx, os.path.join(ctx.scratch, "crafted", name), ns, files, lib=libspec)
         rep0 = {"namespace": ns, "model": files["m.yml"], "imported": libspec[1] if libspec else None, "crafted": name}
         if g is None:
